@@ -3,6 +3,7 @@
 From Coq Require Import String ZArith List Bool Reals.
 From XV Require Import Base.Scalar Base.Mat Base.RInst Model.ScalerLib Model.ScalerFit Model.Eof Gen.T4 Gen.T6lat
   Proofs.C08_proofs Proofs.C08_lat.
+From XV Require Model.Pipe Gen.T7pipe Proofs.Pipe_tie.
 Import ListNotations.
 
 (* centring on (standardisation off): adding any constant per feature leaves the preprocessed matrix unchanged *)
@@ -66,3 +67,10 @@ Theorem C08_global_scale : forall (n p r k : nat) (X U : list (list R)) (s : lis
   (forall i, (i < k)%nat -> vget OR (e_expvar o') i = (c * c * vget OR (e_expvar o) i)%R).
 Proof. exact eof_fit_scaled. Qed.
 Print Assumptions C08_global_scale.
+
+(* cross-set models take the options per field: every stage of the first field is built from position 0 of the
+   per-field parameters, every stage of the second field from position 1, and each keyword is fed by the parameter of
+   that meaning (constructor wiring regenerated from BaseModelCrossSet.__init__) *)
+Theorem C08_cross_options_reach_their_own_field : forallb Pipe_tie.wiring_ok T7pipe.cross_wiring = true.
+Proof. exact (proj1 Pipe_tie.cross_wiring_ok). Qed.
+Print Assumptions C08_cross_options_reach_their_own_field.
